@@ -78,6 +78,22 @@ theorem C06_int_roundtrip (n : Int) : decodeInt (intBytes n) = n := by
 theorem C06_intBytes_injective (a b : Int) (h : intBytes a = intBytes b) : a = b := by
   rw [← C06_int_roundtrip a, ← C06_int_roundtrip b, h]
 
+/-- **an integer argument never looks like `None`, `True` or `False`** (their one-byte images are 0x0f, 0x1f, 0x2e): 0 is
+the single byte 0x00 and every other integer takes at least two bytes — which is why `(bit_length + 15) // 8` and not the
+minimal width is the right length (`BVV(15, n)` versus the empty interval `BVV(None, n)`) -/
+theorem C06_int_not_sentinel (n : Int) : argBytes (.int n) ≠ argBytes .none ∧ argBytes (.int n) ≠ argBytes .true ∧
+    argBytes (.int n) ≠ argBytes .false := by
+  simp only [argBytes]
+  by_cases h0 : n = 0
+  · subst h0
+    refine ⟨?_, ?_, ?_⟩ <;> decide
+  · have hlen : 2 ≤ (intBytes n).length := by
+      simp only [intBytes, length_natBytes, intLen, bitLength]
+      have : n.natAbs ≠ 0 := by omega
+      simp only [this, if_false]
+      omega
+    refine ⟨?_, ?_, ?_⟩ <;> intro h <;> rw [h] at hlen <;> simp at hlen
+
 /-! ### floats -/
 
 theorem natBytes8_injective (a b : Nat) (ha : a < 18446744073709551616) (hb : b < 18446744073709551616)
